@@ -335,6 +335,17 @@ pub fn lockstep(
                 }
             }
             (real, reference) => {
+                // an implementation that, asked again after a failed statement, fails in the
+                // same way again (retries it) instead of moving on is not at fault: what
+                // follows an error item is only judged when the run does move on
+                if j > 0
+                    && matches!(real, Item::RuntimeErr(_))
+                    && r.steps[j - 1].continues
+                    && it.steps[j - 1].item == *real
+                    && step.calls.0 == step.calls.1
+                {
+                    return None;
+                }
                 if let Some(m) = mm(
                     Some(j),
                     What::ItemClass,
